@@ -67,7 +67,7 @@ def source_value(rng):
     if k > 0.93:
         return rng.choice(BAD_BYTES)
     return rng.choice([[5], ("7",), {"1"}, [1, 2], (1.5, 2), {"a": 1}, {}, [], (), b"12", b"true", "  12 ", "0", "1", 0.0, 1.0,
-                       [{"a": 1, "b": 2}], ({"a": 1},), [{"a": 1, "b": 2}, {"c": 3, "d": 4}], [("a", 1), ("b", 2)], [["a", 1]],
+                       [{"a": 1, "b": 2}], ({"a": 1},), ({"a": 1, "b": 2},), ({"xy": 1, "zw": 2},), [{"a": 1, "b": 2}, {"c": 3, "d": 4}], [("a", 1), ("b", 2)], [["a", 1]],
                        Decimal("0"), Decimal("1"), Decimal("1.0"), Decimal("1E+2"), 10 ** 17, float(2 ** 60), "1e2", "Infinity"])
 
 
@@ -199,7 +199,7 @@ def run_judge(i_seed):
     if k0 < 0.03:
         t, v = rng.choice([Color, NumEnum, Swap]), rng.choice(ENUM_TARGET_VALUES)
     elif k0 < 0.07:
-        t, v = rng.choice([dict, dict, list, tuple, str]), rng.choice([[{"a": 1, "b": 2}], ({"a": 1},), [{"a": 1, "b": 2}, {"c": 3, "d": 4}], [("a", 1), ("b", 2)],
+        t, v = rng.choice([dict, dict, list, tuple, str]), rng.choice([[{"a": 1, "b": 2}], ({"a": 1},), ({"a": 1, "b": 2},), ({"xy": 1, "zw": 2},), [{"a": 1, "b": 2}, {"c": 3, "d": 4}], [("a", 1), ("b", 2)],
                                                                         [["a", 1]], [{"a": 1}], [{}], [[]], [{"a": {"b": 1}}]])
     elif k0 < 0.1:
         t, v = rng.choice(EXTRA_T + [str, bytes, int, float]), rng.choice(ENUM_SOURCES)
